@@ -53,8 +53,8 @@ PROPS: dict[str, dict[str, Any]] = {
         "level": "exploration",
         "sidecars": ["contracts/c10.py"],
         "bounded": [{"script": "bounded/store_harness.py", "args": ["--mode", "c10"]}],
-        "rule": "bounded stand-in, exhaustive in its bound: every stream of length <= 4 (thorough 5) over a pool of 6 spans (two traces; one id occurring "
-                "twice with different content; a child of the duplicated id; a span whose parent never arrives) x batch sizes {1,2,3,100}, plus every "
+        "rule": "bounded stand-in, exhaustive in its bound: every stream of length <= 4 (thorough 5) over a pool of 7 spans (two traces; one id occurring "
+                "twice with different content and once more under the other trace id; a child of the duplicated id; a span whose parent never arrives) x batch sizes {1,2,3,100}, plus every "
                 "split of every stream of length <= 3 (thorough 4) into two runs over one file-backed store; postcondition over the whole abstract view: "
                 "nodes == first occurrence per id, assoc == parent links of exactly those. distinct = distinct (id/type sequence, batch); non-trivial = "
                 "the stream contains a duplicate id (inside a run or across runs)",
@@ -87,6 +87,7 @@ PROPS: dict[str, dict[str, Any]] = {
     "C14": {
         "level": "exploration",
         "sidecars": ["contracts/c14.py"],
+        "native_n": {"quick": 400, "thorough": 20000},
         "bounded": [{"script": "bounded/roundtrip_harness.py", "args": []}],
         "rule": "bounded stand-in: 24 (thorough 200) seeded multi-workflow trace sets (2-4 traces of 1-4 spans, chain / bushy, span names with inner and "
                 "surrounding white space, unicode, punctuation; workflow names with spaces) x mapping config {default, all seven keys renamed} x {sync, "
